@@ -1009,6 +1009,8 @@ theorem enum_reports_partial {e : SEnum ν} {nt : SVariant ν → Reading} {sf :
       | some v =>
           have hv : v ∈ e.variants := List.mem_of_find?_eq_some harm
           obtain ⟨hunit, hnew, hstruct⟩ := hok.formFits m rfl v (by rw [selectedVariant_eq_arm]; exact harm)
+          -- the span of the selecting item, attached on the way out, changes no leaf's kind or path
+          refine Reports.withSpan ?_ m.span
           simp only [dataArm, variantContent]
           cases hk : v.kind with
           | unit val =>
@@ -1047,6 +1049,7 @@ theorem enum_verdict {e : SEnum ν} {nt : SVariant ν → Reading} {sf : SVarian
       | none => simp [Verdict]
       | some v =>
           have hv : v ∈ e.variants := List.mem_of_find?_eq_some harm
+          refine Verdict.mapErr ?_ (·.withSpan m.span)
           simp only [dataArm, variantContent]
           cases hk : v.kind with
           | unit val => cases m <;> simp [Verdict]
